@@ -23,7 +23,7 @@ Tie + implementation-side oracle (this file, harness/h_c08.c = the real code und
 import json, os, re, struct, concurrent.futures as cf
 import vlib
 
-FRAME_SIZE, FRAME_SHIFT = 410, 160      # re-read from the harness (fe_s) at run time; only used to aim chunk sizes
+FRAME_SIZE, FRAME_SHIFT = 410, 160      # compared with fe_s.frame_size / frame_shift of the running decoder (inventory_tie)
 MAXCHUNK = 32000                        # D9: a stale assert aborts calls longer than MAX_INT16 samples (C06's defect)
 
 JSGF = [
@@ -488,13 +488,6 @@ def without_alignment(h):
     return h
 
 
-def finding_class(res):
-    """stable identifier of the witness class (for known_findings.json)"""
-    if res["kind"] in ("kth-utterance-differs-from-fresh-decoder",):
-        return "kth-utterance-differs"
-    return res["kind"]
-
-
 def shrink_history(c, binp, mat, h, tables, stats, pre, kind):
     def fails(items):
         h2 = dict(h, items=items)
@@ -615,6 +608,11 @@ def inventory_tie(c, binp, tables, mat, stats):
         c.oblige("inventory session runs", False, run["err"][-800:])
         return False
     out = {i: r["out"] for i, r in enumerate(run["recs"])}
+    fs = dict(x.split("=") for x in out[1][0].split()[1:] if "=" in x)
+    if not c.oblige("the analysis-window size and shift the check uses to count completed windows are the decoder's",
+                    fs.get("frame_size") == str(FRAME_SIZE) and fs.get("frame_shift") == str(FRAME_SHIFT), fs):
+        return False
+    stats["scorer"] = fs.get("mgau")
     cells = out[0][0].split()[1:]
     hc = {x for x in cells if not x.endswith("[]")}
     mc = set(tables["kind"])
@@ -687,7 +685,7 @@ def check(c):
                   "determinism of the compiled C floating-point code for identical inputs",
                   "read sets / dependency sets of the model's operations are validated by poisoning and by history-vs-fresh comparison, "
                   "not derived from the C text; write sets are validated by byte-level snapshots per call",
-                  "tainted cells (ring capacities and phases, top-N codeword history, log counters) are declared result-neutral: "
+                  "tainted cells (ring capacities and phases, log counters, the s2_semi scorer's top-N history) are declared result-neutral: "
                   "validated by perturbation, not proved (ring bookkeeping is C07's theorem)",
                   "the error callback / log level (err.c globals) and the dither PRNG (genrand.c globals) are shared by all decoders "
                   "and are excluded by configuration (loglevel fixed, dither off)"]
@@ -722,9 +720,8 @@ def check(c):
             res = judge_pair(c, binp, mat, obj["pair"], stats, prng, pre)
         else:
             res = judge_history(c, binp, mat, obj["history"], tables, stats, f"corpus {f.name}", pre)
-        if res is not None:
+        if res is not None and not report(c, res, obj.get("history"), mat, f"corpus {f.name}", stats):
             corpus_failed = True
-            report(c, res, obj.get("history"), mat, f"corpus {f.name}", stats)
     if corpus_failed:
         nhist = npair = 0
     distinct, ok = set(), True
@@ -737,6 +734,9 @@ def check(c):
                               "poison_mask": h["poison"]})
         res = judge_history(c, binp, mat, h, tables, stats, f"history {i}", pre)
         if res is not None:
+            if is_known(c, witness_class(res, h)):
+                report(c, res, h, mat, f"history {i}", stats)
+                continue
             ok = False
             if res["kind"] not in ("crash", "model-tie"):
                 h = shrink_history(c, binp, mat, h, tables, stats, pre, res["kind"])
@@ -788,17 +788,17 @@ def check(c):
 
 
 def selection_history_probe(c, binp, mat, rng, pre, stats):
-    """thorough tier: the Gaussian-selection history (top-N codeword identities) is the one carry that is read before it is
-    rewritten; it is declared result-neutral because every active codebook is fully rescanned.  Probe that declaration at the
-    most sensitive observable there is: the senone scores handed to the search in every frame, under many random histories."""
+    """thorough tier: the Gaussian-selection history (top-N codeword identities of the PTM scorer) is classified dead on
+    start (reset when frame 0 is scored).  Probe that at the most sensitive observable there is — the senone scores handed to
+    the search in every frame — under many garbage contents, with and without frame down-sampling."""
     n, ok = 0, True
     for a in (0, 2):
         ln = min(mat["audio"][a]["n"], MAXCHUNK)
         base = None
         for k in range(40):
-            ops = [f"new 0 {mat['cfgs']['batchcmn']}", f"jsgf 0 {hx(mat['gram'][1 if a == 0 else 4])}",
+            ops = [f"new 0 {mat['cfgs']['ds2' if k % 2 else 'batchcmn']}", f"jsgf 0 {hx(mat['gram'][1 if a == 0 else 4])}",
                    f"setcmn 0 {CMN_TEXTS[0]}", "start 0"]
-            if k:
+            if k >= 2:
                 ops.append(f"poison 0 {rng.below(1 << 30)} 1")
             ops += [f"proc 0 {a} 0 {ln} 1 0 i", "endx 0", "result 0 1"]
             r = run_ops(binp, pre, ops)
@@ -807,16 +807,18 @@ def selection_history_probe(c, binp, mat, rng, pre, stats):
                 c.oblige("selection-history probe runs", False, r["err"][-600:])
                 return False, n
             obs = [l for rec in r["recs"][-2:] for l in observable(rec)]
-            if base is None:
-                base = obs
-            elif obs != base:
+            if k < 2:                     # k = 0, 1: the unpoisoned reference of each configuration
+                base = dict(base or {})
+                base[k] = obs
+                continue
+            if obs != base[k % 2]:
                 ok = False
-                c.oblige("the top-N codeword history is result-neutral at the level of per-frame senone scores", False,
-                         {"ops": ops, "observed": obs[:4], "reference": base[:4]})
+                c.oblige("the top-N codeword history is dead on start at the level of per-frame senone scores", False,
+                         {"ops": ops, "observed": obs[:4], "reference": base[k % 2][:4]})
                 stats["failed_kind"] = "selection-history-not-neutral"
-                c.violation({"kind": "selection-history-not-neutral", "ops": ops, "observed": obs, "reference": base,
+                c.violation({"kind": "selection-history-not-neutral", "ops": ops, "observed": obs, "reference": base[k % 2],
                              "note": "garbage (valid, distinct codewords) in ptm_fast_eval_s.topn changed the senone scores; "
-                                     "the classification `sel` = result-neutral is wrong for the implementation"}, False)
+                                     "the classification dead-on-start is wrong for the implementation"}, False)
                 return False, n
     stats["selection_history_probes"] = n
     return ok, n
@@ -833,16 +835,22 @@ def witness_class(res, h):
         return k + "/batch-utterance-after-streaming-with-batch-cmn-configured"
     if t["mode"] != "batch" and t["chunks"] and (t["chunks"][0] < FRAME_SIZE or t["len"] < FRAME_SIZE):
         return k + "/first-call-shorter-than-an-analysis-window"
+    ring = FRAME_SIZE + 127 * FRAME_SHIFT        # samples of 128 frames = the initial cepstral ring
+    batch_before = any(it["op"] == "utt" and it["utt"]["mode"] == "batch" and it["utt"]["len"] > ring for it in h["items"])
+    if t["mode"] != "batch" and batch_before and nframes(t["len"]) > 300 and any(c > ring for c in t["chunks"]):
+        return k + "/streaming-utterance-crossing-the-cmn-update-threshold-after-a-larger-batch-utterance"
     return k + "/other"
 
 
+def is_known(c, key):
+    return any(kf.get("property") == c.prop and kf.get("status", "open") == "open" and kf.get("key") == key
+               for kf in vlib.known_findings())
+
+
 def report(c, res, h, mat, label, stats=None):
-    if stats is not None:
-        stats["failed_kind"] = res["kind"]
-    found = res["kind"] in ("kth-utterance-differs-from-fresh-decoder", "two-decoders-interfere",
-                            "poisoning-a-dead-buffer-changes-the-result", "reset-field-not-canonical")
-    # poisoning / canonical-value failures show that the classification is wrong for the implementation, which is a broken tie;
-    # only a difference produced by a real history is the property failing on a concrete input
+    """record one failure; returns True when it is a listed known finding (reported as such, the search goes on)"""
+    # poisoning / canonical-value / write-set failures show that the classification is wrong for the implementation, which is a
+    # broken tie; only a difference produced by a real history is the property failing on a concrete input
     found_input = res["kind"] in ("kth-utterance-differs-from-fresh-decoder", "two-decoders-interfere")
     obj = dict(res)
     obj["label"] = label
@@ -850,9 +858,15 @@ def report(c, res, h, mat, label, stats=None):
         obj["history"] = h
     obj["audio_pool"] = [a["name"] for a in mat["audio"]]
     obj["how_to_rerun"] = "python3 tools/check.py C08 --replay <this file>"
-    c.oblige(f"isolation holds on {label}", False, {k: res[k] for k in res if k in ("kind", "first_difference", "fields", "problems", "last_command", "stderr_tail")})
     obj["witness_class"] = witness_class(res, h)
-    c.violation(obj, found_input, finding_key=obj["witness_class"])
+    if is_known(c, obj["witness_class"]):
+        c.violation(obj, found_input, finding_key=obj["witness_class"])
+        return True
+    if stats is not None:
+        stats["failed_kind"] = res["kind"]
+    c.oblige(f"isolation holds on {label}", False, {k: res[k] for k in res if k in ("kind", "first_difference", "fields", "problems", "last_command", "stderr_tail")})
+    c.violation(obj, found_input)
+    return False
 
 
 def replay(c, path):
